@@ -889,6 +889,52 @@ pub fn run() {
             }
         }
     }
+    // ---- one key many times: every key of the alphabet (and every control key) 300 times in a row, from
+    // three editor states ----
+    {
+        let mut keys = editor_alphabet();
+        keys.extend([K::Ctrl('a'), K::Ctrl('w'), K::Ctrl('e'), K::Ctrl('r'), K::Ctrl('l'), K::E(Key::Enter)]);
+        let prefixes: Vec<Vec<K>> = vec![vec![], typed("set FC = 0x1"), { let mut k = typed("FC = 1"); k.extend(typed("bogus")); k.extend(typed("load o")); k }];
+        let mut cases = vec![];
+        for k in &keys {
+            for p in &prefixes {
+                cases.push((*k, p.clone()));
+            }
+        }
+        let rr = mc::par_map(&cases, |(k, pre)| {
+            let mut out = vec![];
+            let mut n = 0u64;
+            let mut seq = pre.clone();
+            let r = mc::catch(|| -> Result<u64, (String, String)> {
+                let mut s = replay(pre)?;
+                let mut c = 0;
+                for i in 0..300 {
+                    seq.push(*k);
+                    c += 1;
+                    s.press(*k).map_err(|(key, w)| (key, format!("at repetition {} of {}: {}", i + 1, key_name(k), w)))?;
+                    if s.quit {
+                        break;
+                    }
+                    if i % 60 == 59 {
+                        s.render(76, 28);
+                    }
+                }
+                Ok(c)
+            });
+            match r {
+                Ok(Ok(c)) => n += c,
+                Ok(Err((key, w))) => out.push((format!("repeated-key/{}", key), keys_line(&seq, 76, 28), w)),
+                Err(p) => out.push((panic_key(&p), keys_line(&seq, 76, 28), format!("panic at {}: {}", p.site(), p.msg))),
+            }
+            (n, out)
+        });
+        for (n, o) in rr {
+            long_keys += n;
+            for (k, l, w) in o {
+                note(&mut bad, k, l, w);
+            }
+        }
+    }
     mc::watch::idle();
     // ---- control keys after each of 20 machine states ----
     let mut ctl_runs = 0u64;
